@@ -39,6 +39,7 @@ def enum_sweep_messages(enums):
 
 def run(ctx):
     g = gtirb_from_repo.load()
+    ctx.scope = {"deny": ("reader:cannot-resave", "loaded")}
     cov = irgen.Cov(ctx)
     enums = protocheck.schema_enums()
     nw, nr = (60, 120) if ctx.quick else (1500, 3000)
@@ -48,6 +49,7 @@ def run(ctx):
         bs = protocheck.writer_stream(ctx, g, batch, ir, auxinfo, "W%d" % i)
         ctx.case(repr(bs), bs is not None and len(bs) > 60)
     enum_by_name_oracle(ctx, g)
+    aux_field_scenarios(ctx, g)
     for tag, m in enum_sweep_messages(enums):
         r = protocheck.reader_stream(ctx, g, batch, m, tag)
         ctx.case(tag, True)
@@ -67,6 +69,44 @@ def run(ctx):
                        "all-false, non-ASCII names, unknown attribute numbers, every enum constant by random choice, AuxData with node references); R: one message per declared enum "
                        "constant plus %d random schema-valid closed messages built directly from the descriptors; non-trivial = at least one module" % (nw, nr))
     ctx.sample({"writer_tag": "W0", "reader_first": "enum sweep then random messages"})
+
+
+def aux_field_scenarios(ctx, g):
+    """the aux_data entries of the written message carry the table's CURRENT type name and the encoding of its CURRENT value under
+    that name -- also for a table that came from a file and was given another type name (without / after being read), at IR and at
+    module level"""
+    import io
+    IRm = gtirb_from_repo.msg("IR")
+    cases = [([1, 2, 3], "sequence<uint8_t>", "sequence<uint16_t>", (3).to_bytes(8, "little") + b"\x01\0\x02\0\x03\0"),
+             (7, "uint8_t", "int32_t", (7).to_bytes(4, "little")),
+             ({"k": 1}, "mapping<string,int16_t>", "mapping<string,uint64_t>", (1).to_bytes(8, "little") + (1).to_bytes(8, "little") + b"k" + (1).to_bytes(8, "little")),
+             ([], "sequence<uint8_t>", "sequence<string>", (0).to_bytes(8, "little"))]
+    for where in ("ir", "module"):
+        for read_first in (False, True):
+            for v, t1, t2, want in cases:
+                ir = g.IR()
+                m = g.Module(name="m", ir=ir)
+                (ir if where == "ir" else m).aux_data["t"] = g.AuxData(v, t1)
+                ir2 = g.IR.load_protobuf_file(io.BytesIO(protocheck.save_bytes(ir)))
+                cont = ir2 if where == "ir" else next(iter(ir2.modules))
+                ad = cont.aux_data["t"]
+                if read_first:
+                    ad.data
+                ad.type_name = t2
+                ctx.case("aux-field:%s:%s:%s->%s" % (where, read_first, t1, t2), True)
+                ctx.count("aux_field_scenarios")
+                try:
+                    p = IRm()
+                    p.ParseFromString(protocheck.save_bytes(ir2)[8:])
+                    e = (p if where == "ir" else p.modules[0]).aux_data["t"]
+                    got = (e.type_name, bytes(e.data))
+                except Exception as ex:  # noqa: BLE001
+                    got = ("raised", exc_name(g, ex))
+                if got != (t2, want):
+                    ctx.add("oracle", "writer:aux-bytes", "a loaded %s-level table of type %s, given the type name %s %s, is written as %s %s; its value %r under its "
+                            "current type name encodes to %s" % (where, t1, t2, "after being read" if read_first else "without being read", got[0],
+                                                                 got[1].hex() if isinstance(got[1], bytes) else got[1], v, want.hex()),
+                            {"type_name": t2, "was": t1, "read_first": read_first, "level": where})
 
 
 def enum_by_name_oracle(ctx, g):
